@@ -5,15 +5,23 @@ chosen thread schedules by the deterministic scheduler (harness/sched/shim.py); 
 lean/MlModel/Model/Queue.lean; theorems: lean/MlModel/Properties/C04.lean.
 """
 from harness import lib_queue as lq
+from harness import lib_queue_backends as lqb
 
 PID = 'C04'
 TITLE = 'Iterator queues deliver every element exactly once and always terminate'
-LEAN_MODULES = ['MlModel.Properties.C04', 'MlModel.Properties.C04Live', 'MlModel.Witness.C04']
+LEAN_MODULES = ['MlModel.Properties.C04', 'MlModel.Properties.C04Live', 'MlModel.Properties.C04Backend', 'MlModel.Witness.C04',
+                'MlModel.Witness.C04Backend']
 TRUSTED = [
     'scheduler shim (harness/sched/shim.py) implements CPython Lock/RLock/Condition(FIFO notify, no spurious wake-up)/'
     'queue.Queue/SimpleQueue semantics; one atomic step = one synchronisation operation, the thread-local code after it '
     '(incl. GIL-atomic reads/writes of plain shared attributes) is fused into the step, in the model and under the shim alike',
     'pre-emption inside a C-level queue operation or between two plain attribute accesses is not explored',
+    'queue backends: Model/QueueBackend.lean writes the three operations of queue.Queue / queue.SimpleQueue / asyncio.Queue as CPython '
+    'documents them (validated three-way each run on random operation sequences: real object = shim = Lean instance); the exception '
+    'class lattice is flat below Exception (true of the four queue classes in CPython 3.12); translate/queue_exc.py (clause order, '
+    'classes named, role of a clause decided from what its body does) is validated each run against eval + issubclass on the real module',
+    'async API: the deterministic event loop (harness/lib_queue_backends.DetLoop) replaces the selector wait by a scheduler yield '
+    'point and run_in_executor threads by managed threads; asyncio task scheduling inside the loop is CPython\'s (FIFO ready queue)',
 ]
 ASSUMPTIONS = ['producer count declared up front (max_enqueuer = number of producers), as piter_multiplex does; '
                'undeclared late-starting producers are the known input class F22']
@@ -24,7 +32,26 @@ RULE = ('configurations: 1-3 producers x 1-3 consumers (get loop / get_batch loo
         'non-trivial = at least 2 threads took turns at least 10 times in the schedule. '
         'Model-guided stage: for 4 fixed small configurations, seeded random walks on the Lean LTS are reduced (greedy cover) '
         'to schedules that together execute every program point (Pc constructor) reachable without failure/stop/timeout; '
-        'each is replayed on the REAL code, compared as above and checked by the oracle; histograms pc / pc_unreached')
+        'each is replayed on the REAL code, compared as above and checked by the oracle; histograms pc / pc_unreached. '
+        'Round 10 (queue BACKENDS, harness/lib_queue_backends.py): the same schedule-replay family over every buffer the constructors '
+        'accept -- IteratorQueue(n) default, IteratorQueue(queue.Queue(n) | queue.SimpleQueue() | asyncio.Queue(n) | duck object with '
+        'exactly put_nowait/get_nowait/empty raising queue.* or asyncio.Queue* classes), IteratorQueue.from_queue(asyncio.Queue(n)), '
+        'AsyncIteratorQueue(n) -- bounded and unbounded, 12 cases per arm (quick): a quarter producers-first (phased schedule: the '
+        'producers run until parked on the full buffer), a quarter consumers-first, the rest random / PCT; the shims raise the REAL '
+        'exception classes of their backend; 4 of the 8 model-guided configurations run on non-default backends; coverage enforced '
+        "(exit 2) per backend x bounded/unbounded x API: the arm ran, a consumer met the backend's Empty and parked, and (bounded) a "
+        "producer met the backend's Full and parked -- never masking a verdict. Async API: AsyncIteratorQueue(int | queue.Queue | "
+        'queue.SimpleQueue | asyncio.Queue | duck) with one producer (async_enqueue_from_iterator or sync) and 1-2 consumers '
+        '(`async for`, anext, async_get, async_get_batch, sync get / get_batch) on a deterministic event loop (SelectorEventLoop '
+        'subclass: virtual clock, the selector is a scheduler yield point enabled when another thread handed the loop a callback, '
+        'run_in_executor jobs are managed threads); every operation is attributed to its LOGICAL thread (asyncio task / its executor '
+        'jobs) and the projection of the run onto the LTS alphabet must be an execution of the LTS (every choice enabled, same labels, '
+        'same per-thread outcomes; enabled SETS are not compared for async runs). Backend contract: 150 random put_nowait / '
+        'get_nowait / empty sequences on the real CPython object, its shim and the Lean Backend instance (three-way, exception '
+        'classes included) + an independent FIFO-with-capacity oracle. Real un-shimmed backends under OS threads (8 configurations, '
+        'producers first, C04 oracle). Table check: every `except` expression of put / get / get_batch / get_nowait evaluated in the '
+        "module's namespace and dispatched with issubclass on real classes vs `dispatch` over Generated/QueueExc.lean; "
+        '_default_queue(n) for n<4 vs the generated defaults')
 
 
 def gen_cases(ctx):
@@ -41,6 +68,26 @@ def gen_cases(ctx):
     ctx.count('cap', case['cap'])
     ctx.count('threads', f'{nprod}p{ncons}c')
     yield case
+  # round 10: the same family over every BACKEND the constructors accept, bounded and unbounded, producers ahead
+  for k in range(12 if ctx.quick else 300):
+    for b, bd in lqb.sync_arm_list():
+      case = lqb.gen_backend_case(rng, k, b, bd, 3 if ctx.quick else 5)
+      ctx.count('backend_cases', lqb.arm(case))
+      yield case
+  # the async API of AsyncIteratorQueue (async_enqueue_from_iterator, `async for`, anext, async_get, async_get_batch) on a
+  # deterministic event loop, over every buffer its constructor accepts, mixed with sync threads
+  for k in range(8 if ctx.quick else 200):
+    for ab, bds in lqb.ASYNC_BUFFERS.items():
+      for bd in bds:
+        case = lqb.gen_async_case(rng, k, ab, bd, 3 if ctx.quick else 5)
+        ctx.count('backend_cases', lqb.async_arm(case))
+        yield case
+  # the backend CONTRACT: the same operation sequences on the real CPython object, its scheduler shim, the Lean instance
+  for case in lqb.contract_cases(rng, 150 if ctx.quick else 3000):
+    yield dict(case, kind='contract')
+  # the real, un-shimmed backends under OS threads (producers first)
+  for _ in range(1 if ctx.quick else 10):
+    yield from lqb.real_thread_cases(rng)
 
 
 def _cfg(cap, threads, timeout=False):
@@ -58,6 +105,11 @@ GUIDED_CONFIGS = [
     _cfg(0, [_P([0, 1, 2]), _B(1024, False), _G]),
     _cfg(2, [_P([0, 1]), _P([100, 101], 901), _B(2, False), _B(3, True)]),
     _cfg(1, [_P([]), _G]),
+    # round 10: the same LTS walks replayed on the other backends (the LTS is backend-independent)
+    dict(_cfg(1, [_P([0, 1, 2]), _P([100], 901), _G, _B(2, True)]), backend='asyncio.Queue'),
+    dict(_cfg(2, [_P([0, 1, 2, 3]), _B(2, False), _G]), backend='AsyncIteratorQueue', max_enq=0),
+    dict(_cfg(0, [_P([0, 1]), _P([100], 901), _B(3, True), _G]), backend='queue.SimpleQueue'),
+    dict(_cfg(1, [_P([0, 1, 2]), _G, _B(2, False)]), backend='duck_async'),
 ]
 # Program points of the LTS that no C04 configuration can execute, and why (they are C05's).
 _NO_TIMEOUT = 'no timeout configured: a parked wait has no timeout alternative'
@@ -75,16 +127,69 @@ def extra(ctx):
   """Model-guided stage: schedules chosen by random walks on the Lean LTS so that together they execute every
   program point reachable in the C04 setting, replayed on the real code and compared step by step."""
   lq.model_guided(ctx, GUIDED_CONFIGS, ctx.seed, unreachable=GUIDED_UNREACHABLE, oracle=oracle)
+  import os
+  from harness.core import REPO
+  for why in lqb.table_check(ctx, os.path.join(REPO, 'ml_metrics', '_src', 'utils', 'iter_utils.py')):
+    ctx.extra_disagreements.append(('backend_table', None, dict(why=why)))
+  lqb.enforce(ctx, extra_required=lqb.async_required() + lqb.CONTRACT_REQUIRED +
+              ['real_threads:' + c[0] for c in lqb.REAL_THREAD_CONFIGS])
 
 
-run_impl = lq.run_impl
-model_requests_obs = lq.model_requests_obs
+def run_impl(case):
+  return lqb.run_impl(case, lq.run_impl)
+
+
+def model_requests_obs(case, obs):
+  k = lqb.kind(case)
+  if k == 'contract':
+    return [lqb.contract_request(case)]
+  if k == 'real_threads':
+    return []
+  if k == 'async':
+    return [lqb.async_model_request(case, obs)]
+  return lq.model_requests_obs(case, obs)
+
+
 model_requests = None
-model_obs = lq.model_obs
-compare = lq.compare
+
+
+def model_obs(case, resps):
+  k = lqb.kind(case)
+  if k == 'schedule':
+    return lq.model_obs(case, resps)
+  return dict(kind=k, resp=resps[0] if resps else None)
+
+
+def compare(obs, m):
+  k = m.get('kind') if isinstance(m, dict) else None
+  if k == 'contract':
+    d = lqb.contract_compare(obs, m['resp'])
+  elif k == 'real_threads':
+    d = None
+  elif k == 'async':
+    d = lqb.async_compare(obs, m['resp'])
+  else:
+    d = lq.compare(obs, m)
+  if d is not None:
+    lqb.VERDICT['disagreement'] += 1
+  if isinstance(obs, dict) and obs.get('oracle_new_failure'):
+    lqb.VERDICT['oracle failure outside the known input classes'] += 1
+  return d
 
 
 def oracle(case, obs):
+  what = _oracle(case, obs)
+  if what is not None and finding(case, what) is None:
+    obs['oracle_new_failure'] = True      # travels to the main process with the observation (see lqb.enforce)
+  return what
+
+
+def _oracle(case, obs):
+  k = lqb.kind(case)
+  if k == 'contract':
+    return lqb.contract_oracle(case, obs)
+  if k == 'real_threads':
+    return lqb.real_threads_oracle(case, obs)
   if obs['outcome'] != 'done':
     return (f"{obs['outcome']}: threads blocked forever {obs['blocked']} after {len(obs['choices'])} steps "
             f'(no failure, no stop request)')
@@ -109,11 +214,19 @@ def oracle(case, obs):
 
 
 def nontrivial(case, obs):
+  if lqb.kind(case) != 'schedule':
+    lqb.note_kind(case, obs)
+    if lqb.kind(case) != 'async':
+      return lqb.kind(case) == 'real_threads' or any(r[0] == 'raise' for r in obs['real'])
+  else:
+    lqb.note_run(case, obs)
   ch = [c[0] for c in obs['choices']]
   return sum(1 for a, b in zip(ch, ch[1:]) if a != b) >= 10
 
 
 def finding(case, what):
+  if lqb.kind(case) in ('contract', 'real_threads'):
+    return None
   if case['max_enq'] == 0 and len(lq.producers(case)) > 1:
     return 'F22'
   return None
@@ -121,6 +234,12 @@ def finding(case, what):
 
 def neighbours(case, rng):
   import copy
+  if lqb.kind(case) != 'schedule':
+    # the table / contract / async ties have no schedule to re-draw: look for a failing input among the backend cases
+    for k in range(300):
+      b, bd = rng.choice(lqb.sync_arm_list())
+      yield lqb.gen_backend_case(rng, k, b, bd, 4)
+    return
   for k in range(300):
     c = copy.deepcopy(case)
     c['sched'] = dict(kind=rng.choice(['random', 'pct']), seed=rng.randrange(10**9), changes=rng.randrange(1, 6),
